@@ -45,7 +45,8 @@ class TLCRun:
 
 
 def run(module, cfg=None, cfg_text=None, env=None, workers=None, simulate=None, dump=None,
-        coverage=False, timeout=3600, depth=None, deadlock=None, extra=None, dfs=False, heap="8g"):
+        coverage=False, timeout=3600, depth=None, deadlock=None, extra=None, dfs=False, heap="8g",
+        light=False):
     """Run TLC on spec/<module>.tla.
 
     cfg       name of a .cfg under spec/ (default <module>.cfg); cfg_text overrides it with
@@ -67,7 +68,10 @@ def run(module, cfg=None, cfg_text=None, env=None, workers=None, simulate=None, 
             r.cfg = os.path.basename(cfgp)
         if workers is None:
             workers = os.cpu_count() or 4
-        jopts = ["-XX:+UseParallelGC", "-Xmx" + heap, "-Xss64m"]
+        if light:   # many small single-worker JVMs side by side (trace validation chunks)
+            jopts = ["-XX:+UseSerialGC", "-Xmx2g", "-Xss64m", "-XX:TieredStopAtLevel=1"]
+        else:
+            jopts = ["-XX:+UseParallelGC", "-Xmx" + heap, "-Xss64m"]
         if dfs:
             jopts.append("-Dtlc2.tool.queue.IStateQueue=StateDeque")
         cmd = ["java"] + jopts + ["-cp", JAR + ":" + DEPS, "tlc2.TLC",
@@ -398,7 +402,7 @@ def simulate_traces(module, cfg=None, cfg_text=None, env=None, num=100, depth=20
 # --------------------------------------------------------------------------------------
 
 def validate_traces(module, payload, cfg=None, n_traces=None, chunk=None, timeout=3600, env=None,
-                    parallel=None):
+                    parallel=None, payload_fn=None):
     """Write `payload` (a JSON-able dict with key 'traces': list) to a scratch file, run the trace
     spec `module` on it and return (runs, verdicts) where verdicts[i] = (err, position) for trace i
     (0-based).  The trace spec must print  <<"V", tid, err, l>>  exactly once per trace id (tid is
@@ -424,13 +428,15 @@ def validate_traces(module, payload, cfg=None, n_traces=None, chunk=None, timeou
         base, trs = chunks[ci]
         p = dict(payload)
         p["traces"] = trs
+        if payload_fn is not None:      # e.g. keep only the descriptors this chunk refers to
+            p = payload_fn(p)
         fn = os.path.join(tmp, "in_%d.json" % ci)
         with open(fn, "w") as f:
             json.dump(p, f)
         e = {"VERIF_INPUT": fn}
         if env:
             e.update(env)
-        r = run(module, cfg=cfg, env=e, workers=1, timeout=timeout, deadlock=False)
+        r = run(module, cfg=cfg, env=e, workers=1, timeout=timeout, deadlock=False, light=True)
         return base, len(trs), r
 
     try:
